@@ -255,8 +255,8 @@ func (c *Ctx) copyStructElems(st *State, et types.Type, src, dst, n, cond string
 				c.assume(fmt.Sprintf("(forall ((q.i %s)) (! (=> (and %s (bvsle #x0000000000000000 q.i) (bvslt q.i %s)) (= (select %s %s) (select %s %s))) :pattern ((select %s %s))))",
 					sortIdx, cond, n, nh, de, cur, se, nh, de), "")
 				// frame: everything that is not an element of dst keeps its value
-				c.assume(fmt.Sprintf("(forall ((q.r Int)) (! (=> (not (and %s (= (elemD %s) %s))) (= (select %s q.r) (select %s q.r))) :pattern ((select %s q.r))))",
-					cond, rootOf(wrapD, "q.r"), dst, nh, cur, nh), "")
+				c.assume(fmt.Sprintf("(forall ((q.r Int)) (! (=> (not (and %s %s)) (= (select %s q.r) (select %s q.r))) :pattern ((select %s q.r))))",
+					cond, c.elemOfPred(rootOf(wrapD, "q.r"), dst, nil), nh, cur, nh), "")
 				st.heap[name] = nh
 			}
 		}
